@@ -141,6 +141,16 @@ def run_case(case):
             err = abs(lhs - rhs)
             checks += 1
             rel = err / scale if scale > 0 else err
+            if not np.isfinite(rel) and dt != np.complex128 and np.all(np.isfinite(x)) \
+                    and np.all(np.isfinite(y)):
+                # float32 overflow (e.g. un-normalised Kaiser-Bessel weights ~ I0(beta)^ndim
+                # applied four times in N(N(.))): decide the same case in double precision;
+                # if it holds there, the single-precision run says nothing either way
+                r64 = run_case(dict(case, dt="complex128"))
+                if r64["verdict"] == "held":
+                    return inconclusive("single-precision overflow (finite and adjoint in "
+                                        "double precision)", sig="c64-overflow")
+                return r64
             worst = max(worst, rel)
             if not rel <= tol:
                 return violated(sig, "<Ax,y> = %s but <x,A^H y> = %s (relative gap %.3g, tol "
